@@ -244,6 +244,7 @@ def run(ctx):
     gname, gmode = gparams[0], gparams[1]
     d2_guard_normalises(ctx, guard, gname, gmode)
     d1_mediation(ctx, guard, gname, gmode)
+    d1_use_path_is_the_judged_name(ctx, guard)
     d4_overwrite_gates(ctx)
     d5_private_callers(ctx)
     d6_protected_sets(ctx)
@@ -335,7 +336,25 @@ def d2_guard_normalises(ctx, guard, gname, gmode):
     inst = 'guard compares a path-normalised form of the joined path (use sites join the name to the directory)'
     LEXICAL = {'normpath', 'abspath'}
     lexical = [norm(c) for t, c, o, attrs in name_compares if (attrs & LEXICAL) and not (attrs & (NORMALISERS - LEXICAL))]
-    if lexical and not raw:
+    # The raising tests are a disjunction of refusals: a comparison of the raw / lexically normalised name that stands
+    # next to a properly resolved one only refuses more of the same files.  Proper = resolved through the file system
+    # ('resolve'/'realpath'), not existence dependent (stat / samefile: a protected file that does not exist yet has no
+    # identity) and not passed through a helper the rule cannot see into; and not and-ed with a weaker name test.
+    EXISTENCE = {'stat', 'lstat', 'samefile', 'st_ino', 'st_dev', 'exists', 'is_file'}
+    cls_private = {m_.name for m_ in guard.cls.all_funcs() if m_.name.startswith('_')} if guard.cls is not None else set()
+    proper = []
+    for t, c, o, attrs in name_compares:
+        if not (attrs & (NORMALISERS - LEXICAL - {'samefile'})) or attrs & EXISTENCE or attrs & (cls_private - {guard.name}):
+            continue
+        weaker_inside = any(isinstance(b, ast.BoolOp) and isinstance(b.op, ast.And) and
+                            any(c2 is not c and any(x is c2 for x in ast.walk(b)) for t2, c2, o2, a2 in name_compares
+                                if not (a2 & (NORMALISERS - LEXICAL))) and any(x is c for x in ast.walk(b))
+                            for b in ast.walk(t.test))
+        if not weaker_inside:
+            proper.append(norm(c))
+    if proper:
+        ctx.ok('R-SIB', 'D2', guard, name_compares[0][1], 'normalised-operand', inst)
+    elif lexical and not raw:
         ctx.bad('R-SIB', 'D2', guard, name_compares[0][1], 'normalised-operand',
                 'guard normalises the name the way the use sites resolve it (through the file system)',
                 detail=f'purely lexical normalisation (os.path.normpath/abspath) in `{lexical[0]}`: the use sites hand '
@@ -507,6 +526,105 @@ def _check_use(ctx, m, guard, gname, gmode, gcalls, use_node, name_arg, text, mo
         return
     ctx.bad('R-DOM', 'D1', m, use_node, construct, inst,
             detail=f'no guard call checks the value `{norm(name_arg)}` that the use site receives')
+
+
+TRANSFORMERS = {'with_name', 'with_suffix', 'with_stem', 'parent', 'replace', 'lower', 'upper', 'casefold', 'strip', 'lstrip',
+                'rstrip', 'removeprefix', 'removesuffix', 'format', 'join', 'title', 'capitalize', 'name', 'stem'}
+SAMEFILE = {'resolve', 'absolute', 'expanduser', 'as_posix', '__fspath__'}
+
+
+def d1_use_path_is_the_judged_name(ctx, guard):
+    """The guard judges the name as given; the methods of DataDir must then use exactly <directory>/<that name>.  A name
+    that is rewritten between the check and the use (an extension appended, case folded, a component replaced) makes the
+    file written another one than the file judged: 'arraydescription' passes the guard and lands on
+    arraydescription.json."""
+    c = guard.cls
+    n_ob = 0
+    for f in c.all_funcs():
+        if f is guard:
+            continue
+        params = set(f.params) | set(f.kwonly)
+        loopvars = {x.id for n in own_nodes(f.node) if isinstance(n, (ast.For, ast.comprehension))
+                    for x in ast.walk(n.target) if isinstance(x, ast.Name)}
+
+        def judge(e, depth=0):
+            """-> 'ok' | 'bad' | 'unknown' for the name component of a join."""
+            if isinstance(e, ast.Constant):
+                return 'ok'
+            if isinstance(e, ast.Attribute):
+                return 'bad' if e.attr in TRANSFORMERS else 'ok'
+            if isinstance(e, ast.Name):
+                if e.id in params or e.id in loopvars:
+                    return 'ok'
+                ds = defs_of(f.node, e.id)
+                if not ds or depth > 4:
+                    return 'unknown'
+                rs = {judge(v, depth + 1) for v, _ in ds}
+                return 'bad' if 'bad' in rs else ('unknown' if 'unknown' in rs else 'ok')
+            if isinstance(e, ast.Call):
+                d = dotted(e.func) or ''
+                if d in ('str', 'Path', 'pathlib.Path', 'PurePath', 'os.fspath', 'os.fsdecode') and len(e.args) == 1:
+                    return judge(e.args[0], depth + 1)
+                if isinstance(e.func, ast.Attribute) and e.func.attr in TRANSFORMERS:
+                    return 'bad'
+                if isinstance(e.func, ast.Attribute) and e.func.attr in SAMEFILE:
+                    return judge(e.func.value, depth + 1)
+                return 'unknown'
+            if isinstance(e, (ast.JoinedStr, ast.BinOp)):
+                return 'bad' if any(isinstance(x, ast.Name) and (x.id in params or x.id in loopvars) for x in ast.walk(e)) \
+                    else 'unknown'
+            if isinstance(e, ast.IfExp):
+                rs = {judge(e.body, depth + 1), judge(e.orelse, depth + 1)}
+                return 'bad' if 'bad' in rs else ('unknown' if 'unknown' in rs else 'ok')
+            return 'unknown'
+        joins = []
+        for n in own_nodes(f.node):
+            if isinstance(n, ast.Call) and isinstance(n.func, ast.Attribute) and n.func.attr == 'joinpath' and n.args and \
+                    norm(n.func.value) in ('self._path', 'self.path'):
+                joins.append((n, n.args[-1] if len(n.args) == 1 else None))
+            elif isinstance(n, ast.BinOp) and isinstance(n.op, ast.Div) and norm(n.left) in ('self._path', 'self.path'):
+                joins.append((n, n.right))
+        for j, name in joins:
+            if name is None or not any(isinstance(x, ast.Name) and (x.id in params or x.id in loopvars) for x in ast.walk(name)) \
+                    and not isinstance(name, ast.Name):
+                continue
+            if isinstance(name, ast.Name) and name.id not in params and name.id not in loopvars and \
+                    not any(isinstance(x, ast.Name) and (x.id in params or x.id in loopvars)
+                            for v, _ in defs_of(f.node, name.id) for x in ast.walk(v)):
+                continue
+            n_ob += 1
+            verdict = judge(name)
+            # later re-derivations of the variable that holds the joined path
+            holder = [st for st in own_nodes(f.node) if isinstance(st, ast.Assign) and len(st.targets) == 1 and
+                      isinstance(st.targets[0], ast.Name) and any(x is j for x in ast.walk(st.value))]
+            rewr = None
+            if holder:
+                v = holder[0].targets[0].id
+                for val, st in defs_of(f.node, v):
+                    if st is holder[0] or not any(isinstance(x, ast.Name) and x.id == v for x in ast.walk(val)):
+                        continue
+                    if isinstance(val, ast.Call) and isinstance(val.func, ast.Attribute) and val.func.attr in SAMEFILE:
+                        continue
+                    if any((isinstance(x, ast.Attribute) and x.attr in TRANSFORMERS) or
+                           (isinstance(x, ast.BinOp) and isinstance(x.op, (ast.Div, ast.Add))) or
+                           (isinstance(x, ast.Call) and isinstance(x.func, ast.Attribute) and x.func.attr == 'joinpath')
+                           for x in ast.walk(val)):
+                        rewr = st
+                        verdict = 'bad'
+                    elif verdict == 'ok':
+                        verdict = 'unknown'
+            construct = f'use-path::{f.name}'
+            inst = f'{f.qualname}: the path used is <directory>/<name as given> — the name the guard judged'
+            if verdict == 'ok':
+                ctx.ok('R-FLOW', 'D1', f, j, construct, inst)
+            elif verdict == 'bad':
+                ctx.bad('R-FLOW', 'D1', f, rewr or j, construct, inst,
+                        detail=f'the name is rewritten on its way to the file system (`{norm(rewr or j)[:70]}`): the guard judged '
+                               f'the name as given, so a spelling that only becomes a protected name after the rewrite (e.g. '
+                               f'"arraydescription" -> arraydescription.json) passes it and the protected file is written')
+            else:
+                ctx.assume('R-FLOW', 'D1', f, j, construct, inst, detail=f'name component `{norm(name)[:50]}` not understood')
+    ctx.floor('C20 join sites of DataDir methods', n_ob, 1)
 
 
 def must_precede_in_body(loop, gnode):
